@@ -354,8 +354,14 @@ func Suspend(f func()) {
 // unsynchronised state shared between goroutines when the window spans a method call.
 var YieldsOn bool
 
+// Work counts library function entries (every Yield call, active or not): a deterministic
+// measure of the work a call performs, used by C04 as its "terminates promptly" oracle.
+// Plain increments: only meaningful in single-goroutine use.
+var Work uint64
+
 // Yield is a scheduling point without a synchronisation object.
 func Yield(name string) {
+	Work++
 	if cur == nil || !YieldsOn || cur.aborted {
 		return
 	}
